@@ -309,6 +309,42 @@ def rule_R11_2(ctx):
             r.inst("%s: %s raised on the miss of a total lookup: %s" % (f.path, variant, ok))
             if ok:
                 r.ok()
+            elif variant.startswith("Range"):
+                # explicit comparisons instead of `get`: the edges into the
+                # error must include both documented rejections over the
+                # values it reports: start > end and end > len
+                fields = guards.field_terms(f, kd, aops)
+                rels = []
+                for pb in f.preds(bb):
+                    if f.term(pb)["k"] != "switch":
+                        continue
+                    pinfo = f.switch_info(pb)
+                    if not pinfo or pinfo["kind"] != "bool":
+                        continue
+                    rv = f.bool_def(pinfo["on"])
+                    if not rv or rv[0] != "bin" or rv[1] not in guards.NEG:
+                        continue
+                    t_true = pinfo["otherwise"]
+                    for v_, tgt_ in pinfo["cases"]:
+                        if v_ is True:
+                            t_true = tgt_
+                    op_ = rv[1] if t_true == bb else guards.NEG[rv[1]]
+                    rels.append((op_, guards.var_of(f, rv[2]), guards.var_of(f, rv[3])))
+                has_order = any(guards.matches(x, ("Gt", "start", "end"), fields) for x in rels)
+                has_upper = any(guards.matches(x, ("Gt", "end", ("len",)), fields) for x in rels)
+                r.inst("%s: %s guarded by %s" % (f.path, variant, [guards.rel_str(*x) for x in rels]))
+                if rels and has_order and has_upper:
+                    r.ok()
+                elif rels:
+                    r.fail("%s | %s guards miss %s" % (f.path, variant,
+                                                      "start>end" if not has_order else "end>len"),
+                           "%s rejects a range read by explicit comparisons "
+                           "(%s) that do not include %s: some documented "
+                           "out-of-domain ranges reach the slicing code"
+                           % (f.path, [guards.rel_str(*x) for x in rels],
+                              "`start > end`" if not has_order else "`end > len`"), where=mir.span_loc(sp))
+                else:
+                    r.unproven.append("%s: %s not tied to a `get` miss" % (f.path, variant))
             else:
                 r.unproven.append("%s: %s not tied to a `get` miss" % (f.path, variant))
             # range reads: every success exit of the function is behind the
